@@ -204,4 +204,86 @@ P['C16'] = dict(
     mismatch_meaning='the heartbeats or stream requests observed on the real node (content, count of seven, addressing, events, absence when disabled or non-standard) differ from the model the C16 theorems are proved about',
 )
 
+def run_race(root, env, sh, pid, tier, seed, wd, log):
+    """C15 search for a concrete racy schedule: the scenario suite of C10-C14 and C16 built with the
+    Go race detector and run against /repo; one case line per scenario run, impl = number of race
+    reports whose stacks include gomavlib code, model = 0."""
+    import glob
+    h = _os.path.join(root, 'harness')
+    renv = dict(env, CGO_ENABLED='1')
+    rc, out = sh('go build -race -tags verif -o bin/scen-race ./cmd/scen', cwd=h, timeout=2400, env=renv)
+    log.append(('go build -race', rc, out[-3000:]))
+    if rc != 0:
+        return False, out
+    runs = [('C10', 'quick'), ('C11', 'quick'), ('C12', 'quick'), ('C13', 'quick'), ('C14', 'quick'), ('C16', 'quick')]
+    seeds = [seed]
+    if tier == 'thorough':
+        runs = [('C10', 'thorough'), ('C11', 'thorough'), ('C12', 'quick'), ('C13', 'quick'), ('C14', 'quick'), ('C16', 'quick')]
+        seeds = [seed, seed + 1, seed + 2]
+    cases, impl, model, hist = [], [], [], {}
+    reports = []
+    harness_only = 0
+    for sd in seeds:
+        for sid, t in runs:
+            sub = _os.path.join(wd, 'race-%s-%d' % (sid, sd))
+            _os.makedirs(sub, exist_ok=True)
+            for f in glob.glob(_os.path.join(sub, 'report.*')):
+                _os.remove(f)
+            e2 = dict(renv, VERIF_SEED=str(sd), GORACE='log_path=%s halt_on_error=0 exitcode=0 history_size=5' % _os.path.join(sub, 'report'))
+            rc, out = sh([_os.path.join(h, 'bin/scen-race'), sid, sub, t], timeout=3000, env=e2)
+            log.append(('scen-race ' + sid, rc, out[-1500:]))
+            if rc != 0:
+                return False, 'race-enabled scenario %s failed to run: %s' % (sid, out[-1500:])
+            n = 0
+            try:
+                n = sum(1 for _ in open(_os.path.join(sub, 'cases.txt')))
+            except OSError:
+                pass
+            mine = []
+            for f in sorted(glob.glob(_os.path.join(sub, 'report.*'))):
+                txt = open(f, errors='replace').read()
+                for blk in txt.split('==================')[1:]:
+                    if 'DATA RACE' not in blk:
+                        continue
+                    if '/repo/' in blk:
+                        mine.append(blk.strip()[:6000])
+                    else:
+                        harness_only += 1
+            reports += mine
+            cases.append('race\t%s\t%s\t%d\t%d scenario cases' % (sid, t, sd, n))
+            impl.append('races=%d%s' % (len(mine), (' ' + ' '.join(mine[0].split())[:3000]) if mine else ''))
+            model.append('races=0')
+            hist['scenario cases under the race detector (%s)' % sid] = hist.get('scenario cases under the race detector (%s)' % sid, 0) + n
+    open(_os.path.join(wd, 'cases.txt'), 'w').write(''.join(c + '\n' for c in cases))
+    open(_os.path.join(wd, 'impl.txt'), 'w').write(''.join(c + '\n' for c in impl))
+    open(_os.path.join(wd, 'model.txt'), 'w').write(''.join(c + '\n' for c in model))
+    open(_os.path.join(wd, 'hist.txt'), 'w').write(''.join('%s\t%d\n' % kv for kv in hist.items()))
+    import json as _json
+    try:
+        rows = sum(1 for l in open(_os.path.join(root, 'coq', 'gen', 'Access.v')) if l.lstrip().startswith('mkRow'))
+    except OSError:
+        rows = 0
+    _json.dump({'access_table_rows': rows, 'race_reports_in_harness_code_only': harness_only,
+                'scenario_cases_under_race_detector': sum(hist.values())}, open(_os.path.join(wd, 'extra.json'), 'w'))
+    return True, ''
+
+
+def find_bad_access(root):
+    out = eval_with_defs(root, ['TableAccess'], ['Eval vm_compute in (failing_rows access_rows).'], 'access')
+    m = _re.search(r'= (\[.*\]) : list', out)
+    if m and m.group(1) != '[]':
+        return {'policy_rows_failing': m.group(1)[:4000]}
+    return None
+
+
+P['C15'] = dict(
+    bin='scen', runner=run_race, find_bad=find_bad_access, find_bad_is_input=False,
+    rule='(1) translator: /verif/access loads package gomavlib from /repo with go/packages (go/types) and regenerates coq/gen/Access.v: every selection of a field of a package struct (enclosing function, read / write / method call on the pointee, mutex lexically held, goroutine roots reaching the function in the static call graph with interface calls resolved to every implementation), the call edges, the go-statement roots, the first spawn line of Node.Initialize and the select alternatives of hand-over sends; the theorem C15_access_table_follows_policy re-checks the ownership policy on that table by vm_compute. (2) search for a concrete racy schedule: the scenario suites of C10, C11, C12, C13, C14 and C16 (real Node over scripted transports, fake serial devices, loopback TCP/UDP; concurrent writers, slow and absent consumers, closes, heartbeats and stream requests; GOMAXPROCS 1/2/16) rebuilt with -race; a detector report whose stack includes /repo code is a violation with the report as replay. Non-trivial: a scenario run that executed cases.',
+    assumptions=['the static call graph over-approximates which goroutine runs which function (function values stored and called later are attributed to the function that creates them)',
+                 'one goroutine instance per object for the roots go:Node.run, go:channelProvider.run, go:lit:Channel.runReader, go:lit:Channel.runWriter (each works on its own receiver)',
+                 'accesses inside other packages (pkg/frame, pkg/streamwriter, transports), through reflection, and by the application on frames it received are outside the table; the race detector covers them only on the schedules that were run'],
+    mismatch_meaning='the Go race detector reported conflicting unsynchronised accesses inside gomavlib on a concrete schedule of the scenario suite',
+    trusted_extra=['/verif/access (go/packages + go/types from golang.org/x/tools v0.29.0): call graph, root sets, read/write classification', 'Go race detector (ThreadSanitizer runtime)'],
+)
+
 KNOWN_MATCH = {'F12': match_f12}
